@@ -54,7 +54,8 @@ def install(w):
                    " is_undefined(result))",
                ],
                # the only exceptions are those of a user supplied out_type (A5)
-               raises=["Exception"], modifies=[], valid_schema=True, props={"C15"})
+               raises=["Exception"], modifies=[], valid_schema=True,
+               ghost_calls=["literal_coerced"], props={"C15"})
 
 
 def install_validate_literal(w):
